@@ -146,16 +146,35 @@ func BuildStored(st *plan.Stored, inputs [][]byte, sinkOf func(w, s int) []byte)
 		b = append(pre, b...)
 	}
 	base = append([]byte(nil), b...)
-	for _, m := range st.Mut {
-		b = applyMutation(b, m)
-	}
-	b = append(b, st.Tail...)
+	var tail2 []byte
 	if st.Tail2 != nil {
-		t, _, err := BuildStored(st.Tail2, inputs, sinkOf)
+		tail2, _, err = BuildStored(st.Tail2, inputs, sinkOf)
 		if err != nil {
 			return nil, nil, err
 		}
-		b = append(b, t...)
+	}
+	spliced := false
+	for _, m := range st.Mut {
+		if m.Kind == "splice" {
+			// head of this stream up to block m.Block, tail of the other from block m.B2
+			fa := ref.Parse(b, ref.ParseOpt{}).Fields
+			fb := ref.Parse(tail2, ref.ParseOpt{}).Fields
+			na, nb := nBlocks(fa), nBlocks(fb)
+			if na > 0 && nb > 0 {
+				sa, _, oka := blockRange(fa, m.Block%na)
+				sb, _, okb := blockRange(fb, m.B2%nb)
+				if oka && okb {
+					b = append(b[:sa:sa], tail2[sb:]...)
+					spliced = true
+				}
+			}
+			continue
+		}
+		b = applyMutation(b, m)
+	}
+	b = append(b, st.Tail...)
+	if st.Tail2 != nil && !spliced {
+		b = append(b, tail2...)
 	}
 	if st.Cut > 0 && st.Cut < len(b) {
 		b = b[:st.Cut]
